@@ -1,4 +1,4 @@
-HOOK_COMMITS = ['90ef8131369020ffbcbbd132a434888efc7244ad', 'c3965489a2155725303452a52204e337af0fc775', 'f5babc4ae0bc378ca0a0220b06125a739d790f8d', 'c400ea4fdfa519e2aa8beaafd108abb44fa5cc89', '7783248e6b69ca2106b245a3bee9bc0536cb50d1', '191ca995cf4bf469787f00facfbb9b4555bc8ad1', 'b2cf05281b81c5d8139f9756728b323c893c7f2b', '8478a6efa0712fe300246d3289f39b3e7ed0135c', '352759c3f4015590085fbc6ae82e40cdd93d1d26', 'dd3cd9e5943258c2698d12866682ac164cbad76e', '36aadb26c4aef74ab24b58398112842b8de6a84b', '16d31c4428caca7a0eb6bd9de05410fa3a9a0fdf']
+HOOK_COMMITS = ['90ef8131369020ffbcbbd132a434888efc7244ad', 'c3965489a2155725303452a52204e337af0fc775', 'f5babc4ae0bc378ca0a0220b06125a739d790f8d', 'c400ea4fdfa519e2aa8beaafd108abb44fa5cc89', '7783248e6b69ca2106b245a3bee9bc0536cb50d1', '191ca995cf4bf469787f00facfbb9b4555bc8ad1', 'b2cf05281b81c5d8139f9756728b323c893c7f2b', '8478a6efa0712fe300246d3289f39b3e7ed0135c', '352759c3f4015590085fbc6ae82e40cdd93d1d26', 'dd3cd9e5943258c2698d12866682ac164cbad76e', '36aadb26c4aef74ab24b58398112842b8de6a84b', '16d31c4428caca7a0eb6bd9de05410fa3a9a0fdf', '83d90a7a0b2eea536bab194166525a57f4fd5096']
 
 NOT_APPLICABLE = [
     {"property_id": "C14", "reason": "pure function from a configuration tree to effective settings and a start/refuse decision: no schedule, clock, fault or interleaving for a simulator to own; deciding it is input generation plus a differential resolver, which is another technique"},
